@@ -15,6 +15,7 @@ Section ResourceLevel.
   Variable fuel : nat.
 
   Notation apply_node := (apply_target_to_node parse enc nonstr lsel fuel).
+  Notation apply_nodes := (apply_target_to_nodes parse enc nonstr lsel fuel).
   Notation apply_repl := (apply_replacement parse enc nonstr lsel fuel).
 
   (* the target selector wants this resource: label/annotation selectors accept it, one of its ids
@@ -23,8 +24,8 @@ Section ResourceLevel.
     select_by_anno_label lsel n sel (ts_reject ts) = Ok true /\
     exists ids, make_res_ids n = Ok ids /\ target_selected sel (ts_reject ts) ids = true.
 
-  Lemma apply_node_untouched value ts sel n n' :
-    apply_node value ts sel n = Ok n' -> ~ wants ts sel n -> n' = n.
+  Lemma apply_node_untouched vs ts sel i n n' vs' :
+    apply_node vs ts sel i n = Ok (n', vs') -> ~ wants ts sel n -> n' = n /\ vs' = vs.
   Proof.
     unfold apply_target_to_node. intros H W.
     destruct (make_res_ids n) as [ids| | |] eqn:I; cbn in H; try discriminate.
@@ -34,22 +35,36 @@ Section ResourceLevel.
     exfalso. apply W. split; auto. eauto.
   Qed.
 
-  Theorem replacement_untouched value : forall tss rs rs',
-    apply_repl value tss rs = Ok rs' ->
+  Lemma apply_nodes_frame ts sel : forall rs vs i rs' vs',
+    apply_nodes vs ts sel i rs = Ok (rs', vs') ->
+    List.length rs' = List.length rs /\
+    forall k n, nth_error rs k = Some n -> ~ wants ts sel n -> nth_error rs' k = Some n.
+  Proof.
+    induction rs as [|r t IH]; intros vs i rs' vs' H; cbn in H.
+    - inv H. split; auto.
+    - destruct (apply_node vs ts sel i r) as [[r1 vs1]| | |] eqn:A; cbn in H; try discriminate.
+      destruct (apply_nodes vs1 ts sel (S i) t) as [[t1 vs2]| | |] eqn:B; cbn in H; inv H.
+      destruct (IH _ _ _ _ B) as [L N]. split; [cbn; congruence|].
+      intros [|k] n Hn W; cbn in *.
+      + inv Hn. apply apply_node_untouched in A; auto. destruct A; subst; auto.
+      + apply N; auto.
+  Qed.
+
+  Theorem replacement_untouched : forall tss vs rs rs',
+    apply_repl vs tss rs = Ok rs' ->
     List.length rs' = List.length rs /\
     forall i n, nth_error rs i = Some n ->
       (forall ts sel, In ts tss -> ts_select ts = Some sel -> ~ wants ts sel n) ->
       nth_error rs' i = Some n.
   Proof.
-    induction tss as [|ts t IH]; intros rs rs' H; cbn in H.
+    induction tss as [|ts t IH]; intros vs rs rs' H; cbn in H.
     - inv H. auto.
     - destruct (ts_select ts) as [sel|] eqn:Sel; [|discriminate].
-      destruct (mapM (apply_node value ts sel) rs) as [rs1| | |] eqn:M; cbn in H; try discriminate.
-      destruct (mapM_nth _ _ _ M) as [L1 N1]. destruct (IH _ _ H) as [L2 N2].
+      destruct (apply_nodes vs ts sel 0 rs) as [[rs1 vs1]| | |] eqn:M; cbn in H; try discriminate.
+      destruct (apply_nodes_frame _ _ _ _ _ _ _ M) as [L1 N1]. destruct (IH _ _ _ H) as [L2 N2].
       split; [congruence|]. intros i n Hn W.
-      destruct (N1 i n Hn) as (n1 & A & Hi).
-      apply apply_node_untouched in A; [|apply (W ts sel); auto; left; auto]. subst n1.
-      apply N2; auto. intros ts' sel' Hin. apply W. right; auto.
+      apply N2; [apply N1; auto; apply (W ts sel); auto; left; auto|].
+      intros ts' sel' Hin. apply W. right; auto.
   Qed.
 
   (* rejected by id: some id of the resource is selected by a (non-empty) reject entry *)
@@ -132,15 +147,18 @@ Proof.
       rewrite (nth_error_replace_nth_same _ _ _ _ E). auto.
 Qed.
 
-Lemma write_hits_frame opts value : forall hits n n',
-  write_hits opts value hits n = Ok n' ->
+Lemma write_hits_frame opts : forall hits live value n n' st,
+  write_hits opts live value hits n = Ok (n', st) ->
   forall a, (forall h, In (HAt h) hits -> comparable a h = false) -> get_at a n' = get_at a n.
 Proof.
-  induction hits as [|[h|x] t IH]; intros n n' H a C; cbn in H.
+  induction hits as [|[h|x] t IH]; intros live value n n' st H a C; cbn in H.
   - inv H; auto.
   - destruct (update_at (set_field_value opts value) h n) as [n1| | |] eqn:U; cbn in H; try discriminate.
-    rewrite (IH _ _ H a); [|intros; apply C; right; auto].
-    eapply update_at_frame; eauto. apply C; left; auto.
+    assert (E1 : get_at a n1 = get_at a n) by (eapply update_at_frame; eauto; apply C; left; auto).
+    destruct live as [sa|].
+    + destruct (refresh sa h value n1) as [v' still].
+      rewrite (IH _ _ _ _ _ H a); auto. intros; apply C; right; auto.
+    + rewrite (IH _ _ _ _ _ H a); auto. intros; apply C; right; auto.
   - destruct (set_field_value opts value x); cbn in H; try discriminate.
     eapply IH; eauto. intros; apply C; right; auto.
 Qed.
@@ -153,10 +171,10 @@ Section FieldLevel.
 
   (* one field path, options.create not set: the matcher does not modify the target, at least one
      field is found, and the result differs from the target only at (or below / above) the
-     addresses the matcher returned *)
-  Theorem copy_value_exact opts value fp n n' :
+     addresses the matcher returned — wherever the value lives *)
+  Theorem copy_value_exact opts live value fp n n' st :
     create_kind opts value = None ->
-    copy_value_to_target parse enc nonstr fuel opts value [fp] n = Ok n' ->
+    copy_value_to_target parse enc nonstr fuel opts live value [fp] n = Ok (n', st) ->
     exists hits,
       pm parse enc nonstr None fuel (smarter_path_splitter "."%char fp) n = Ok (n, hits) /\
       hits <> [] /\
@@ -167,22 +185,27 @@ Section FieldLevel.
       cbn -[write_hits pm] in H; try discriminate.
     pose proof (pm_nocreate_pure _ _ _ _ _ _ _ _ P); subst n1.
     destruct hits as [|h0 ht]; [discriminate|].
-    destruct (write_hits opts value (h0 :: ht) n) as [n2| | |] eqn:W; cbn -[write_hits pm] in H; inv H.
+    destruct (write_hits opts live (reread live value n) (h0 :: ht) n) as [[n2 st2]| | |] eqn:W;
+      cbn -[write_hits pm] in H; inv H.
     exists (h0 :: ht). split; auto. split; [discriminate|].
     intros a C. eapply write_hits_frame; eauto.
   Qed.
 
-  (* the value written: a single returned field receives exactly what setFieldValue makes of it *)
-  Theorem copy_value_written opts value fp n n' h x :
+  (* the value written: a single returned field receives exactly what setFieldValue makes of it
+     (for a private copy of the value, [reread None value n] is the value itself) *)
+  Theorem copy_value_written opts live value fp n n' st h x :
     create_kind opts value = None ->
-    copy_value_to_target parse enc nonstr fuel opts value [fp] n = Ok n' ->
+    copy_value_to_target parse enc nonstr fuel opts live value [fp] n = Ok (n', st) ->
     pm parse enc nonstr None fuel (smarter_path_splitter "."%char fp) n = Ok (n, [HAt h]) ->
     get_at h n = Some x ->
-    exists x', set_field_value opts value x = Ok x' /\ get_at h n' = Some x'.
+    exists x', set_field_value opts (reread live value n) x = Ok x' /\ get_at h n' = Some x'.
   Proof.
-    intros Ck H P G. cbn in H. rewrite Ck, P in H. cbn in H.
-    destruct (update_at (set_field_value opts value) h n) as [n1| | |] eqn:U; cbn in H; inv H.
-    eapply update_at_get; eauto.
+    intros Ck H P G. cbn -[refresh] in H. rewrite Ck, P in H. cbn -[refresh] in H.
+    destruct (update_at (set_field_value opts (reread live value n)) h n) as [n1| | |] eqn:U;
+      cbn -[refresh] in H; try discriminate.
+    assert (n' = n1).
+    { destruct live as [sa|]; [destruct (refresh sa h (reread (Some sa) value n) n1)|]; cbn in H; inv H; auto. }
+    subst. eapply update_at_get; eauto.
   Qed.
 End FieldLevel.
 
@@ -347,12 +370,99 @@ Example copy_value_example :
   let pod := Map [("spec", Map [("containers", Seq [Map [("name", Scalar TStr SPlain "x"); ("image", Scalar TStr SPlain "i:1")];
                                                    Map [("name", Scalar TStr SPlain "web"); ("image", Scalar TStr SPlain "j:2")]])])] in
   create_kind None (Scalar TStr SPlain "new") = None /\
-  copy_value_to_target (parse_of [("x", Some (lit "x"))]) node_value (fun _ => false) 1 None (Scalar TStr SPlain "new")
+  copy_value_to_target (parse_of [("x", Some (lit "x"))]) node_value (fun _ => false) 1 None None (Scalar TStr SPlain "new")
                        ["spec.containers.[name=x].image"] pod
   = Ok (Map [("spec", Map [("containers", Seq [Map [("name", Scalar TStr SPlain "x"); ("image", Scalar TStr SPlain "new")];
-                                                Map [("name", Scalar TStr SPlain "web"); ("image", Scalar TStr SPlain "j:2")]])])]).
+                                                Map [("name", Scalar TStr SPlain "web"); ("image", Scalar TStr SPlain "j:2")]])])],
+        (Scalar TStr SPlain "new", None)).
 Proof. split; vm_compute; reflexivity. Qed.
 
 Example splice_example :
   splice (mkFO ":" 1%Z false) "reg:5000/x:1" "9000/y" = "reg:9000/y:1" /\ free ":"%char "9000/y" = true.
+Proof. split; vm_compute; reflexivity. Qed.
+
+(* ====================== the address-returning lookup is the C14 PathGetter ====================== *)
+Lemma find_index_key name : forall kvs x,
+  find_field name kvs = Some x ->
+  exists i k, find_index (fun kv : string * node => String.eqb (fst kv) name) kvs = Some i /\
+              nth_error kvs i = Some (k, x).
+Proof.
+  induction kvs as [|[k v] t IH]; cbn; intros x H; [discriminate|].
+  destruct (String.eqb k name) eqn:E.
+  - inv H. exists 0, k. auto.
+  - destruct (IH x H) as (i & k' & Hi & Hn). exists (S i), k'. rewrite Hi. auto.
+Qed.
+
+Lemma index_of_key_spec name kvs x :
+  find_field name kvs = Some x -> exists k, nth_error kvs (index_of_key name kvs) = Some (k, x).
+Proof.
+  intros H. destruct (find_index_key _ _ _ H) as (i & k & Hi & Hn).
+  unfold index_of_key. rewrite Hi. eauto.
+Qed.
+
+Lemma lookup_addr_spec : forall ps n,
+  lookup ps n = match lookup_addr ps n with
+                | Ok (Some a) => Ok (get_at a n)
+                | Ok None => Ok None
+                | Err => Err
+                | Panic => Panic
+                | Diverge => Diverge
+                end.
+Proof.
+  unfold lookup. induction ps as [|p ps IH]; intros n; cbn.
+  - reflexivity.
+  - destruct p; cbn.
+    + destruct n as [t s v|kvs|es]; try (destruct (is_null _); reflexivity).
+      destruct (find_field k kvs) as [x|] eqn:F; [|reflexivity].
+      specialize (IH x). destruct (index_of_key_spec _ _ _ F) as (k' & Hk).
+      destruct (walk None ps k_get x) as [[x1 r1]| | |] eqn:W; cbn in *;
+        destruct (lookup_addr ps x) as [[a|]| | |]; cbn in *; try discriminate; try reflexivity.
+      * rewrite Hk. cbn. inv IH. reflexivity.
+      * inv IH. reflexivity.
+    + destruct n as [t s v|kvs|es]; try (destruct (is_null _); reflexivity).
+      destruct (nth_error es i) as [e|] eqn:F; [|reflexivity].
+      specialize (IH e).
+      destruct (walk None ps k_get e) as [[x1 r1]| | |] eqn:W; cbn in *;
+        destruct (lookup_addr ps e) as [[a|]| | |]; cbn in *; try discriminate; try reflexivity.
+      * rewrite F. inv IH. reflexivity.
+      * inv IH. reflexivity.
+    + destruct n as [t s v|kvs|es]; try (destruct (is_null _); reflexivity).
+      destruct es as [|e0 es']; [reflexivity|].
+      destruct (nth_error (e0 :: es') (List.length (e0 :: es') - 1)) as [e|] eqn:F; [|reflexivity].
+      specialize (IH e).
+      destruct (walk None ps k_get e) as [[x1 r1]| | |] eqn:W; cbn -[nth_error List.length] in *;
+        destruct (lookup_addr ps e) as [[a|]| | |]; cbn -[nth_error List.length] in *; try discriminate; try reflexivity.
+      * rewrite F. inv IH. reflexivity.
+      * inv IH. reflexivity.
+    + destruct n as [t s v0|kvs|es]; try (destruct (is_null _); reflexivity).
+      destruct (find_index (sel_match nm v) es) as [i|]; [|reflexivity].
+      destruct (nth_error es i) as [e|] eqn:F; [|reflexivity].
+      specialize (IH e).
+      destruct (walk None ps k_get e) as [[x1 r1]| | |] eqn:W; cbn in *;
+        destruct (lookup_addr ps e) as [[a|]| | |]; cbn in *; try discriminate; try reflexivity.
+      * rewrite F. inv IH. reflexivity.
+      * inv IH. reflexivity.
+    + reflexivity.
+    + reflexivity.
+    + reflexivity.
+Qed.
+
+(* ====================== the value is NOT copied once: a target that rewrites the source shows through ====================== *)
+Definition alias_doc : node :=
+  Map [("kind", Scalar TStr SPlain "ConfigMap");
+       ("metadata", Map [("name", Scalar TStr SPlain "cm")]);
+       ("data", Map [("a", Scalar TStr SPlain "x"); ("b", Scalar TStr SPlain "q")])].
+Definition alias_repl : replacement :=
+  mkRepl (Some (mkSS (mkId (mkGvk "" "" "ConfigMap") "cm" "") "data.a" None))
+         (Some [mkTS (Some (mkSel (mkId (mkGvk "" "" "ConfigMap") "cm" "") "" "")) []
+                     ["data.a"; "data.b"] (Some (mkFO "/" 1%Z false))])
+         None.
+
+(* the source is x; written once into b = q at index 1 it would give q/x; the filter gives q/x/x *)
+Lemma replacement_source_aliased_lemma :
+  splice (mkFO "/" 1%Z false) "q" "x" = "q/x" /\
+  replacement_filter (parse_of []) node_value (fun _ => false) simple_lsel 2 [alias_repl] [alias_doc] =
+  Ok [Map [("kind", Scalar TStr SPlain "ConfigMap");
+           ("metadata", Map [("name", Scalar TStr SPlain "cm")]);
+           ("data", Map [("a", Scalar TStr SPlain "x/x"); ("b", Scalar TStr SPlain "q/x/x")])]].
 Proof. split; vm_compute; reflexivity. Qed.
